@@ -15,7 +15,7 @@ META = dict(
               "model built from the step's parameters and compared with the state the specification computed "
               "(exactly where all intermediates are short dyadics, 1e-10 relative otherwise). Free/ball joints: "
               "QuatStep behaviours replayed, unit norm and the exact translational update required.",
-    text="For 1-dof slide-joint systems (mass, spring, damper, applied force, one actuator with affine gain/bias, "
+    text="For 1-dof slide-joint systems (mass, spring, linear / quadratic / cubic joint damping, applied force, one actuator with affine gain/bias, "
          "none/integrator/filter/filterexact dynamics, actrange, ctrlrange, actearly, gear, reflected damping/armature) and every "
          "integrator x eulerdamp/damper/spring/actuation/disabled-group flag combination on the lattice, mj_step "
          "produces exactly the qpos, qvel, act, time (and qacc, act_dot, actuator_force, qfrc_actuator, qfrc_passive) "
@@ -36,7 +36,8 @@ def model_lines(p, a):
     """mkmodel.h description of the system of one step (timestep / integrator / flags are set per case with optset)"""
     ls = ["option timestep=%s gravity=0,0,0" % L.num(p["h"]),
           "body name=b1 mass=%s inertia=1,1,1 explicitinertial=1" % L.num(p["m"]),
-          "joint body=b1 name=j1 type=2 axis=1,0,0 stiffness=%s damping=%s" % (L.num(p["k"]), L.num(p["b"]))]
+          "joint body=b1 name=j1 type=2 axis=1,0,0 stiffness=%s damping=%s,%s,%s" % (
+              L.num(p["k"]), L.num(p["b"]), L.num(p["bq"]), L.num(p["bc"]))]
     if a["dyn"] != "off":
         affg = a["g1"][0] != 0 or a["g2"][0] != 0
         affb = a["b0"][0] != 0 or a["b1"][0] != 0 or a["b2"][0] != 0
@@ -55,12 +56,16 @@ def model_lines(p, a):
     return ls
 
 
+def mkey(p):
+    return (p["m"], p["k"], p["b"], p["bq"], p["bc"], p["act"])
+
+
 def flags(p):
     return (0 if p["spring"] else 32) | (0 if p["damper"] else 64) | (0 if p["actuation"] else 2048) | \
            (0 if p["edamp"] else 32768)
 
 
-def feature(p, a, u=None):
+def feature(p, a, u=None, field=None):
     """input class of a step for signatures: integrator, actuator kind and the options / actuator features in play"""
     f = [p["integ"], "act=" + a["dyn"]]
     # (the passive flags eulerdamp / damper / spring are named in the description only: a failure caused by the
@@ -85,6 +90,9 @@ def feature(p, a, u=None):
             f.append("bias-kv")
         if a["adamp"][0] or a["aarm"][0]:
             f.append("reflected")
+    # the damping class only for the fields the damper can influence (an activation failure keeps one signature)
+    if (p["bq"][0] or p["bc"][0]) and field in ("qvel", "qpos", "qacc", "qfrc_passive"):
+        f.append("polydamping" if p["beff"][0] else "polydamping-only")
     return ":".join(f)
 
 
@@ -98,7 +106,7 @@ class Replayer:
         self.cases = []          # (behaviour index, step index, ev, output line, lines of this case)
 
     def _slot(self, p, a):
-        key = (p["m"], p["k"], p["b"], p["act"])
+        key = mkey(p)
         if key not in self.slots:
             slot = len(self.slots)
             self.slots[key] = slot
@@ -213,17 +221,18 @@ def judge(ctx, rp, r, setup_models):
             continue
         bad_beh.add(bi)
         f, want, got, whi = mm
-        sig = "step:%s:%s" % (f, feature(p, a, ev["u"]))
+        sig = "step:%s:%s" % (f, feature(p, a, ev["u"], f))
         what = ("mj_step with %s (h=%s m=%s k=%s b=%s f=%s act=%s flags=%d) from q=%s v=%s act=%s ctrl=%s, step %d of the "
                 "behaviour: %s = %r, Integrators.tla says %s (%s comparison)" % (
-                    p["integ"], L.fr(p["h"]), L.fr(p["m"]), L.fr(p["k"]), L.fr(p["b"]), L.fr(p["f"]), p["act"], flags(p),
+                    p["integ"], L.fr(p["h"]), L.fr(p["m"]), L.fr(p["k"]),
+                    "%s,%s,%s" % (L.fr(p["b"]), L.fr(p["bq"]), L.fr(p["bc"])), L.fr(p["f"]), p["act"], flags(p),
                     L.fr(ev["pre"]["q"]), L.fr(ev["pre"]["v"]), L.fr(ev["pre"]["w"]), L.fr(ev["u"]), si + 1, f, got,
                     want if whi == want else "[%s, %s] (enclosure of exp)" % (float(want), float(whi)),
                     "enclosure" if whi != want else "exact" if ev["exact"] else "1e-10"))
         script = ["lmodel 0"] + model_lines(p, a) + ["end", "ldata 0 0"] + optlines + \
-                 [x.replace("st %d " % rp.slots[(p["m"], p["k"], p["b"], p["act"])], "st 0 ", 1)
-                   .replace("stk %d" % rp.slots[(p["m"], p["k"], p["b"], p["act"])], "stk 0", 1)
-                   .replace("sobs %d " % rp.slots[(p["m"], p["k"], p["b"], p["act"])], "sobs 0 ", 1) for x in mine]
+                 [x.replace("st %d " % rp.slots[mkey(p)], "st 0 ", 1)
+                   .replace("stk %d" % rp.slots[mkey(p)], "stk 0", 1)
+                   .replace("sobs %d " % rp.slots[mkey(p)], "sobs 0 ", 1) for x in mine]
         ctx.violation(sig, what, {"script": script, "field": f, "want": [want.numerator, want.denominator],
                                   "want_hi": [whi.numerator, whi.denominator], "exact": ev["exact"]})
     return nstep, bad_beh
@@ -343,6 +352,13 @@ def run(ctx):
         seen = {e["p"]["integ"] for e in evs}
         if seen != set(INTEG):
             raise Machinery("vacuity: %s steps only cover integrators %s" % (name, sorted(seen)))
+    # vacuity: a model whose ONLY damping is polynomial, stepped by Euler with implicit damping on and a moving dof
+    npoly = sum(1 for e in singles if e["p"]["integ"] == "Euler" and e["p"]["edamp"] and e["p"]["damper"]
+                and not e["p"]["beff"][0] and (e["p"]["bq"][0] or e["p"]["bc"][0]) and e["pre"]["v"][0])
+    nboth = {(bool(e["p"]["beff"][0]), bool(e["p"]["bq"][0] or e["p"]["bc"][0]), e["pre"]["v"][0] > 0) for e in singles}
+    if not npoly or len(nboth) < 8:
+        raise Machinery("vacuity: polynomial-only Euler steps %d, damping classes x velocity signs covered %d of 8" % (
+            npoly, len(nboth)))
     quats = [e for e in out["quat"][1] if e["op"] == "quat"]
     sims = [[e for e in b if e["op"] == "step"] for b in out["sim"][1]]
     sims = [b for b in sims if b]
@@ -351,7 +367,8 @@ def run(ctx):
     # exhaustive runs: states reached after the first step start from the previous post state; each dumped step is
     # replayed on its own from its `pre` state (st = reset + write), simulated behaviours are replayed as sequences
     rp = Replayer()
-    singles.sort(key=lambda e: (e["p"]["m"], e["p"]["k"], e["p"]["b"], e["p"]["act"], e["p"]["h"], e["p"]["integ"],
+    # passive systems first: the first violation reported for a failure class is then the simplest repro
+    singles.sort(key=lambda e: (e["p"]["act"] != "none", e["p"]["m"], e["p"]["k"], e["p"]["b"], e["p"]["bq"], e["p"]["bc"], e["p"]["act"], e["p"]["h"], e["p"]["integ"],
                                 flags(e["p"]), e["p"]["groupon"]))
     for i, e in enumerate(singles):
         rp.add(i, [e])
